@@ -22,6 +22,13 @@ func vResetScenario(kind int) {
 	res := NewResource[vRes](W.w)
 	res.Add(&vRes{1})
 	W.w.Stats()
+	// lock bits were used and released in non-LIFO order before the Reset
+	qa := NewFilter1[vPos](W.w).Query()
+	qb := NewUnsafeFilter(W.w, W.id[cA]).Query()
+	qc := f1.Query()
+	qa.Close()
+	qc.Close()
+	qb.Close()
 	vcheck("reset/no-panic", !vpanics(func() { W.w.Reset() }))
 	s := &W.w.storage
 	// no entities
@@ -59,6 +66,19 @@ func vResetScenario(kind int) {
 	vcheck("reset/observer-unregistered", ob.id == maxObserverID && !s.observers.hasObservers[obsEvt] && s.observers.totalCount == 0)
 	vcheck("reset/resources-removed", !res.Has())
 	vcheck("reset/unlocked", !W.w.IsLocked())
+	fresh := NewWorld(1, 1)
+	lk, lk0 := &s.locks, &fresh.storage.locks
+	vcheck("reset/lock-pool-as-new", lk.locks.bits == 0 && lk.bitPool.length == lk0.bitPool.length && lk.bitPool.available == lk0.bitPool.available && lk.bitPool.next == lk0.bitPool.next)
+	// nested queries after the Reset: closing the inner one leaves the outer one locking
+	n1 := NewFilter0(W.w).Query()
+	n2 := NewUnsafeFilter(W.w).Query()
+	n3 := NewFilter0(W.w).Query()
+	n2.Close()
+	vcheck("reset/nested-queries-keep-locking", W.w.IsLocked())
+	n3.Close()
+	vcheck("reset/nested-queries-keep-locking", W.w.IsLocked())
+	n1.Close()
+	vcheck("reset/nested-queries-unlock-at-the-end", !W.w.IsLocked())
 	e0 := W.w.NewEntity()
 	W.w.RemoveEntity(e0)
 	W.w.Event(7).Emit(Entity{})
